@@ -199,6 +199,9 @@ def run(ctx, chk):
         if not guards and not unknown:
             chk.ob("C10.accept", f"{cls}.get_action: no type guard (every sampled value accepted)",
                    True, "", ci.module.path, nontrivial=False)
+    from .c11 import check_nvec
+    from .c04 import _Wrap
+    check_nvec(ctx, _Wrap(chk, "C10.accept-range"))
     chk.assume("frozen facts about gymnasium 1.x: Discrete.sample() -> np.int64, "
                "MultiDiscrete.sample() -> np.ndarray[int64], Box(low, high, shape) dtype float32")
     chk.assume("NOT decided: observation_space.contains(obs) at run time (float32 rounding of values "
